@@ -50,6 +50,11 @@ def dist_mm(lat1, lon1, lat2, lon2):
     return int(round(math.hypot(n, e) * 1000))
 
 
+def dist_um(lat1, lon1, lat2, lon2):
+    n, e = offsets_m(lat1, lon1, lat2, lon2)
+    return int(round(math.hypot(n, e) * 1_000_000))
+
+
 def area_size_m2(area):
     _, _, a, b, _, shape = area
     if shape == 0:
@@ -92,7 +97,9 @@ class Station:
             ents.append({"addr": list(stack.addr_tuple(addr)),
                          "pv": list(stack.addr_tuple(pv.gn_addr)) + [pv.tst.msec, pv.latitude, pv.longitude,
                                                                       int(pv.pai), pv.s, pv.h],
-                         "set": int(e.position_vector_received), "nb": int(e.is_neighbour), "ls": int(e.ls_pending),
+                         "set": int(getattr(e, "position_vector_received",
+                                            pv.tst.msec != 0 or pv.latitude != 0 or pv.longitude != 0)),
+                         "nb": int(e.is_neighbour), "ls": int(e.ls_pending),
                          "dpl": list(e.dpl_deque)})
         cbf = [list(stack.addr_tuple(k[0])) + [k[1]] for k in r._cbf_buffer.keys()]
         ls = [list(stack.addr_tuple(k)) + [r._ls_retransmit_counters.get(k, 0), len(v)]
@@ -107,6 +114,7 @@ class Station:
         r = self.router
         self.ll.sent.clear()
         self.inds.clear()
+        self.last_confirm = None
         err = None
         k = ev["ev"]
         try:
@@ -146,7 +154,8 @@ class Station:
                                         length=len(ev["payload"]), max_hop_limit=req_hl,
                                         max_packet_lifetime=None if req_ms < 0 else req_ms / 1000,
                                         destination=gn_addr(d[2], d[1], d[0]))
-                r.gn_data_request(req)
+                conf = r.gn_data_request(req)
+                self.last_confirm = getattr(getattr(conf, 'result_code', None), 'value', None)
             elif k == "cbf":
                 key = ev["key"]
                 for kk, t in list(r._cbf_buffer.items()):
@@ -171,28 +180,33 @@ class Station:
                 ar = i.destination_area
                 hdr += [ar.latitude, ar.longitude, ar.a, ar.b, ar.angle]
             inds.append({"hdr": hdr, "data": bytes(i.data)})
-        return {"sent": list(self.ll.sent), "inds": inds, "err": err, "state": self.snapshot()}
+        return {"sent": list(self.ll.sent), "inds": inds, "err": err, "state": self.snapshot(), "confirm": self.last_confirm}
 
     # -- geometry tables for the model ------------------------------------------------------------
     def geo_tables(self, area, dests):
-        """area: (lat,lon,a,b,angle,shape) or None; dests: iterable of (lat,lon). Returns (big, ins, dst, near)"""
+        """area: (lat,lon,a,b,angle,shape) or None; dests: iterable of (lat,lon).
+        Returns (big, ins, dst, near_f, near_d): near_f = some position is within 1e-6 of the border (F) or the area
+        size is within 1 m2 of the limit; near_d = two candidate distances differ by less than 5 micrometres"""
         pts = sorted(self.positions)
-        ins, dst, near = [], [], False
+        ins, dst, near_f, near_d = [], [], False, False
         big = False
-        if area is not None and area[2] > 0 and (area[5] == 0 or area[3] > 0):
-            big = area_size_m2(area) > self.max_area_km2 * 1_000_000
+        if area is not None and area[2] > 0 and (area[5] == 0 or area[3] > 0) and area[5] in (0, 1, 2):
+            size = area_size_m2(area)
+            big = size > self.max_area_km2 * 1_000_000
+            if abs(size - self.max_area_km2 * 1_000_000) < 1.0:
+                near_f = True
             for (la, lo) in pts:
                 f = f_value(area, la, lo)
                 if abs(f) < 1e-6:
-                    near = True
+                    near_f = True
                 ins.append([la, lo, 1 if f >= 0 else 0])
         for (dla, dlo) in sorted(set(dests)):
-            ds = [(la, lo, dist_mm(dla, dlo, la, lo)) for (la, lo) in pts]
+            ds = [(la, lo, dist_um(dla, dlo, la, lo)) for (la, lo) in pts]
             vals = sorted(d for _, _, d in ds)
-            if any(0 < abs(vals[i + 1] - vals[i]) <= 2 for i in range(len(vals) - 1)):
-                near = True
+            if any(0 < abs(vals[i + 1] - vals[i]) <= 5 for i in range(len(vals) - 1)):
+                near_d = True
             dst += [[dla, dlo, la, lo, d] for (la, lo, d) in ds]
-        return big, ins, dst, near
+        return big, ins, dst, near_f, near_d
 
 
 def put_list(l):
@@ -304,10 +318,10 @@ def canon_state(st, impl: bool):
 def run_history(ctx, station: Station, events, relation="Router history = Model.Router.run"):
     """Run on the implementation, then on the model; report mismatches. Returns (impl_trace, model_trace|None,
     skipped) where skipped is True when a geometric decision was too close to a threshold to compare."""
-    impl, geos, model_events = [], [], []
-    near_any = False
+    impl, geos, model_events, nears = [], [], [], []
     for ev in events:
         g = None
+        near = (False, False)
         if ev["ev"] == "cbf" and ev.get("key") is None:
             keys = [list(stack.addr_tuple(kk[0])) + [kk[1]] for kk in station.router._cbf_buffer.keys()]
             ev["key"] = ctx.rng.choice(keys) if keys else [0, 0, 0, 0]
@@ -316,31 +330,36 @@ def run_history(ctx, station: Station, events, relation="Router history = Model.
             ev["sought"] = ctx.rng.choice(keys) if keys else [0, 0, 0]
         if ev["ev"] in ("rx", "geo", "guc"):
             dests = list(ev.get("dests") or [])
-            big, ins, dst, near = station.geo_tables(ev.get("area"), dests)
-            near_any |= near
+            big, ins, dst, near_f, near_d = station.geo_tables(ev.get("area"), dests)
+            near = (near_f, near_d)
             g = (big, ins, dst)
         obs = station.run_event(ev)
         impl.append(obs)
         if ev["ev"] != "tick":
             model_events.append(ev)
             geos.append(g)
+            nears.append(near)
     if not ctx.model.available:
-        return impl, None, near_any
+        return impl, None, False
     flat = ctx.model.call(1, encode_history(station, model_events, geos))
     mtrace = decode_trace(flat, len(model_events))
-    if near_any:
-        return impl, mtrace, True
     j = 0
+    truncated = False
     for idx, (ev, obs) in enumerate(zip(events, impl)):
         if ev["ev"] == "tick":
             continue
         m = mtrace[j]
+        near_f, near_d = nears[j]
         j += 1
+        if near_f:
+            # a geometric verdict within the tolerance band: model and code may legitimately differ from here on
+            truncated = True
+            break
         if m["geomissing"]:
             ctx.mismatch(relation, {"event_index": idx, "event": _ev_repr(ev)}, "geometry row missing (harness)", None)
             break
         diffs = []
-        if obs["sent"] != m["sent"]:
+        if obs["sent"] != m["sent"] and not near_d:
             diffs.append(("sent", [b.hex() for b in m["sent"]], [b.hex() for b in obs["sent"]]))
         if [(i["hdr"], i["data"]) for i in obs["inds"]] != [(i["hdr"], i["data"]) for i in m["inds"]]:
             diffs.append(("indications", [(i["hdr"], i["data"].hex()) for i in m["inds"]],
@@ -354,7 +373,8 @@ def run_history(ctx, station: Station, events, relation="Router history = Model.
             ctx.mismatch(relation + f" [{what}]", {"event_index": idx, "event": _ev_repr(ev),
                                                   "history": [_ev_repr(e) for e in events[:idx + 1]][-12:]}, mv, iv)
             break
-    return impl, mtrace, False
+    ctx.count(1, "history_compared_with_model" + ("_truncated_at_border_case" if truncated else ""))
+    return impl, mtrace, truncated
 
 
 def _ev_repr(ev):
